@@ -16,7 +16,8 @@ RULE = ("AnkoContainers gives Go's rules for slice headers over backing arrays (
         "refuted) and emits one history per transition; every emitted history is replayed on the real interpreter and its last step judged by the same trace specification.")
 
 FAMILIES = ["slice", "map", "str", "typed"]
-DEPTH = {"quick": {"slice": 4, "map": 5, "str": 5, "typed": 5}, "thorough": {"slice": 6, "map": 6, "str": 6, "typed": 6}}
+DEPTH = {"quick": {"slice": 4, "map": 5, "str": 5, "typed": 5}, "thorough": {"slice": 5, "map": 7, "str": 6, "typed": 6}}
+DEEPER = {"slice": 6, "typed": 7}      # thorough tier: design properties only (no replay) one level deeper
 
 
 def cover(ctx, binp, validate_in):
@@ -38,6 +39,15 @@ def cover(ctx, binp, validate_in):
         return fam, ops, hists, r
     with concurrent.futures.ThreadPoolExecutor(max_workers=4) as ex:
         res = list(ex.map(mc, FAMILIES))
+    if not ctx.quick():
+        for fam, d in DEEPER.items():
+            cfg = os.path.join(ctx.work, "mcc_deep_%s.cfg" % fam)
+            base = open(os.path.join(vlib.VERIF, "spec", "MC_AnkoContainers_%s.cfg" % fam)).read()
+            open(cfg, "w").write(base.replace("Depth = 4", "Depth = %d" % d))
+            r = vlib.run_tlc(ctx, "MC_AnkoContainers", os.path.basename(cfg), workers=4, timeout=3000, cfg_dir=ctx.work, want_lines=False)
+            vlib.tlc_ok(ctx, r, "MC_AnkoContainers[%s, depth %d, properties only]" % (fam, d))
+            ctx.cov["states"] += r.distinct
+            ctx.cov["transitions"] += r.generated
     shards = 8
     files = [open(os.path.join(ctx.work, "cov_ops_%d.ndjson" % k), "w") for k in range(shards)]
     n = 0
